@@ -39,6 +39,21 @@ inductive Outcome (α : Type) where
   | hang
   deriving DecidableEq, Repr
 
+def Outcome.bind {α β : Type} : Outcome α → (α → Outcome β) → Outcome β
+  | .ok a, f => f a
+  | .error e, _ => .error e
+  | .panic, _ => .panic
+  | .hang, _ => .hang
+
+instance : Monad Outcome where
+  pure := .ok
+  bind := Outcome.bind
+
+/-- a guarded step: `none` (index / slice out of range) is a run-time panic -/
+def orPanic {α : Type} : Option α → Outcome α
+  | some a => .ok a
+  | none => .panic
+
 /-- Go `b[i]` -/
 def goIndex (b : Bytes) (i : Nat) : Option UInt8 := b[i]?
 
@@ -66,15 +81,13 @@ def be32? (b : Bytes) : Option Nat :=
 `fuel` = iterations left (`len(data) - i`).  The second component is `none` for Go's `nil`. -/
 def consumeStringAt (data : Bytes) (delim : UInt8) : Nat → Nat → Outcome (Bytes × Option Bytes)
   | 0, _ => .ok (data, none)
-  | fuel + 1, i =>
-    match goIndex data i with
-    | none => .panic
-    | some b =>
-      if b = delim then
-        match goSlice data 0 i, goSlice data (i + 1) data.length with
-        | some s, some rem => .ok (s, some rem)
-        | _, _ => .panic
-      else consumeStringAt data delim fuel (i + 1)
+  | fuel + 1, i => do
+    let b ← orPanic (goIndex data i)
+    if b = delim then
+      let s ← orPanic (goSlice data 0 i)
+      let rem ← orPanic (goSlice data (i + 1) data.length)
+      pure (s, some rem)
+    else consumeStringAt data delim fuel (i + 1)
 
 /-- `binutils.ConsumeString` -/
 def consumeString (data : Bytes) (delim : UInt8) : Outcome (Bytes × Option Bytes) :=
@@ -105,36 +118,30 @@ def Cfg.facts : Cfg :=
   { minLen := Facts.browsingMinRequestPayloadLength, maxFields := Facts.browsingMaxAllowedNumberOfFields, isQueryField := fun f => Facts.browsingQueryFields.contains f }
 
 /-- one `_, rem := ConsumeCString(req.unparsed); if rem == nil { return Err… }; req.unparsed = rem` -/
-def skipCString (unparsed : Bytes) : Outcome Bytes :=
-  match consumeCString unparsed with
-  | .ok (_, some rem) => .ok rem
-  | .ok (_, none) => .error .invalidFormat
-  | .error e => .error e
-  | .panic => .panic
-  | .hang => .hang
+def skipCString (unparsed : Bytes) : Outcome Bytes := do
+  let (_, rem) ← consumeCString unparsed
+  match rem with
+  | none => .error .invalidFormat
+  | some rem => pure rem
 
-def toChallenge : Bytes → Option Crypt.Challenge
-  | [a, b, c, d, e, f, g, h] => some #v[a, b, c, d, e, f, g, h]
-  | _ => none
+/-- the 8 bytes copied into `req.Challenge` -/
+def toChallenge (c : Bytes) : Option Crypt.Challenge :=
+  if h : c.toArray.size = 8 then some ⟨c.toArray, h⟩ else none
 
 /-- `parseChallenge`: `len < 8 → Err`, `copy(req.Challenge[:], req.unparsed[:8])`, `req.unparsed = req.unparsed[8:]` -/
 def parseChallenge (unparsed : Bytes) : Outcome (Crypt.Challenge × Bytes) :=
-  if unparsed.length < 8 then .error .invalidFormat else
-  match goSlice unparsed 0 8, goSlice unparsed 8 unparsed.length with
-  | some c, some rest =>
-    match toChallenge c with
-    | some ch => .ok (ch, rest)
-    | none => .panic
-  | _, _ => .panic
+  if unparsed.length < 8 then .error .invalidFormat else do
+  let c ← orPanic (goSlice unparsed 0 8)
+  let rest ← orPanic (goSlice unparsed 8 unparsed.length)
+  let ch ← orPanic (toChallenge c)
+  pure (ch, rest)
 
 /-- `parseFilters` -/
-def parseFilters (unparsed : Bytes) : Outcome (Bytes × Bytes) :=
-  match consumeCString unparsed with
-  | .ok (filters, some rem) => .ok (filters, rem)
-  | .ok (_, none) => .error .invalidFormat
-  | .error e => .error e
-  | .panic => .panic
-  | .hang => .hang
+def parseFilters (unparsed : Bytes) : Outcome (Bytes × Bytes) := do
+  let (filters, rem) ← consumeCString unparsed
+  match rem with
+  | none => .error .invalidFormat
+  | some rem => pure (filters, rem)
 
 /-- the `for len(fieldsUnparsed) > 0 { … }` loop of `parseFields`.  Each pass shortens
 `fieldsUnparsed` (a found delimiter is dropped; without one the remainder is `nil`), so
@@ -142,99 +149,55 @@ def parseFilters (unparsed : Bytes) : Outcome (Bytes × Bytes) :=
 def fieldsLoop (cfg : Cfg) : Nat → Bytes → List Bytes → Outcome (List Bytes)
   | 0, _, _ => .hang
   | fuel + 1, fieldsUnparsed, fields =>
-    if fieldsUnparsed.length > 0 then
-      match consumeString fieldsUnparsed 0x5c with
-      | .ok (fieldNameBin, rem) =>
-        let rest : Bytes := match rem with
-          | some r => r
-          | none => []   -- a nil slice: len 0
-        if !cfg.isQueryField fieldNameBin then fieldsLoop cfg fuel rest fields
-        else
-          let fields := fields ++ [fieldNameBin]
-          if fields.length > cfg.maxFields then .error .tooManyFields
-          else fieldsLoop cfg fuel rest fields
-      | .error e => .error e
-      | .panic => .panic
-      | .hang => .hang
+    if fieldsUnparsed.length > 0 then do
+      let (fieldNameBin, rem) ← consumeString fieldsUnparsed 0x5c
+      let rest : Bytes := match rem with
+        | some r => r
+        | none => []   -- a nil slice: len 0
+      if !cfg.isQueryField fieldNameBin then fieldsLoop cfg fuel rest fields
+      else
+        let fields := fields ++ [fieldNameBin]
+        if fields.length > cfg.maxFields then .error .tooManyFields
+        else fieldsLoop cfg fuel rest fields
     else .ok fields
 
 /-- `parseFields` -/
-def parseFields (cfg : Cfg) (unparsed : Bytes) : Outcome (List Bytes × Bytes) :=
-  match consumeCString unparsed with
-  | .ok (fieldsBinString, rem) =>
-    match rem with
-    | none => .error .invalidFormat
-    | some rem =>
-      if fieldsBinString.length < 1 then .error .invalidFormat else
-      match goIndex fieldsBinString 0 with
-      | none => .panic
-      | some b0 =>
-        if b0 ≠ 0x5c then .error .invalidFormat else
-        match goSlice fieldsBinString 1 fieldsBinString.length with
-        | none => .panic
-        | some fieldsUnparsed =>
-          match fieldsLoop cfg (fieldsUnparsed.length + 1) fieldsUnparsed [] with
-          | .ok fields => if fields.length = 0 then .error .noFields else .ok (fields, rem)
-          | .error e => .error e
-          | .panic => .panic
-          | .hang => .hang
-  | .error e => .error e
-  | .panic => .panic
-  | .hang => .hang
+def parseFields (cfg : Cfg) (unparsed : Bytes) : Outcome (List Bytes × Bytes) := do
+  let (fieldsBinString, rem) ← consumeCString unparsed
+  match rem with
+  | none => .error .invalidFormat
+  | some rem =>
+    if fieldsBinString.length < 1 then .error .invalidFormat else do
+    let b0 ← orPanic (goIndex fieldsBinString 0)
+    if b0 ≠ 0x5c then .error .invalidFormat else do
+    let fieldsUnparsed ← orPanic (goSlice fieldsBinString 1 fieldsBinString.length)
+    let fields ← fieldsLoop cfg (fieldsUnparsed.length + 1) fieldsUnparsed []
+    if fields.length = 0 then .error .noFields else pure (fields, rem)
 
 /-- `validateOptionsMask` -/
 def validateOptionsMask (unparsed : Bytes) : Outcome Unit :=
-  if unparsed.length ≠ 4 then .error .invalidFormat else
-  match be32? unparsed with
-  | none => .panic
-  | some options => if options ≠ 0 ∧ options ≠ 1 then .error .invalidFormat else .ok ()
+  if unparsed.length ≠ 4 then .error .invalidFormat else do
+  let options ← orPanic (be32? unparsed)
+  if options ≠ 0 ∧ options ≠ 1 then .error .invalidFormat else pure ()
 
 /-- `(*Request).parse` -/
-def parseBody (cfg : Cfg) (unparsed : Bytes) : Outcome Request :=
-  match skipCString unparsed with
-  | .ok unparsed =>
-    match skipCString unparsed with
-    | .ok unparsed =>
-      match parseChallenge unparsed with
-      | .ok (challenge, unparsed) =>
-        match parseFilters unparsed with
-        | .ok (filters, unparsed) =>
-          match parseFields cfg unparsed with
-          | .ok (fields, unparsed) =>
-            match validateOptionsMask unparsed with
-            | .ok () => .ok { filters, fields, challenge }
-            | .error e => .error e
-            | .panic => .panic
-            | .hang => .hang
-          | .error e => .error e
-          | .panic => .panic
-          | .hang => .hang
-        | .error e => .error e
-        | .panic => .panic
-        | .hang => .hang
-      | .error e => .error e
-      | .panic => .panic
-      | .hang => .hang
-    | .error e => .error e
-    | .panic => .panic
-    | .hang => .hang
-  | .error e => .error e
-  | .panic => .panic
-  | .hang => .hang
+def parseBody (cfg : Cfg) (unparsed : Bytes) : Outcome Request := do
+  let unparsed ← skipCString unparsed
+  let unparsed ← skipCString unparsed
+  let (challenge, unparsed) ← parseChallenge unparsed
+  let (filters, unparsed) ← parseFilters unparsed
+  let (fields, unparsed) ← parseFields cfg unparsed
+  validateOptionsMask unparsed
+  pure { filters, fields, challenge }
 
 /-- `browsing.NewRequest` -/
 def parseRequest (cfg : Cfg) (data : Bytes) : Outcome Request :=
-  if data.length < 2 then .error .invalidFormat else
-  match goSlice data 0 2 with
-  | none => .panic
-  | some prefix2 =>
-    match be16? prefix2 with
-    | none => .panic
-    | some dataLen =>
-      if dataLen < cfg.minLen ∨ dataLen > data.length then .error .invalidFormat else
-      match goSlice data 9 dataLen with
-      | none => .panic
-      | some unparsed => parseBody cfg unparsed
+  if data.length < 2 then .error .invalidFormat else do
+  let prefix2 ← orPanic (goSlice data 0 2)
+  let dataLen ← orPanic (be16? prefix2)
+  if dataLen < cfg.minLen ∨ dataLen > data.length then .error .invalidFormat else do
+  let unparsed ← orPanic (goSlice data 9 dataLen)
+  parseBody cfg unparsed
 
 /-! ## params.Marshal over the `Info` schema -/
 
@@ -278,7 +241,7 @@ def marshalInfo : Schema → Info → Option (List (Bytes × Bytes))
 
 /-- `svrParams[field]` on that map: a later assignment to the same key wins -/
 def paramsLookup (ps : List (Bytes × Bytes)) (field : Bytes) : Option Bytes :=
-  (ps.reverse.find? fun kv => kv.1 == field).map (·.2)
+  ps.foldl (fun acc kv => if kv.1 = field then some kv.2 else acc) none
 
 /-! ## browser.packServers / process -/
 
@@ -336,15 +299,11 @@ def packServers (schema : Schema) (client : Client) (fields : List Bytes) (serve
 /-- `Handler.process` for a given selection (the listing `h.uc.Execute` returns — property C03)
 and the 23 random header draws of `crypt.Encrypt`.  An `error` means no reply is written. -/
 def process (cfg : Cfg) (schema : Schema) (secret : Crypt.Secret) (client : Client) (payload : Bytes)
-    (selected : List Server) (rnd : Crypt.Rnd) : Outcome Bytes :=
-  match parseRequest cfg payload with
-  | .ok req =>
-    match Crypt.encrypt? secret req.challenge rnd (packServers schema client req.fields selected) with
-    | some out => .ok out
-    | none => .hang
-  | .error e => .error e
-  | .panic => .panic
-  | .hang => .hang
+    (selected : List Server) (rnd : Crypt.Rnd) : Outcome Bytes := do
+  let req ← parseRequest cfg payload
+  match Crypt.encrypt? secret req.challenge rnd (packServers schema client req.fields selected) with
+  | some out => pure out
+  | none => .hang
 
 /-- the key of `browser.GameEncKey` -/
 def gameKey : Crypt.Secret := ⟨Facts.gameEncKey.toArray, by decide⟩
